@@ -104,6 +104,12 @@ check("C11",
       "TLA+ spec (exact backtracking machine) model-checked with TLC; replay of exact runs; TLC trace validation of recorded optimisation runs",
       "DESIGN.md §4 C11")
 
+check("C02",
+      "TLC (MC_C02 over QConv) takes, per system, every element of a complete basis of the input space (one-hot H-coordinate matrices / vectors; qutrit one-hots strided in the quick tier) plus dense small-integer inputs with sigma_y-type components: the Prepare step computes the row-major computational HS matrix from the action of the map on the matrix units; invariants: the algebraic Choi matrix (sum over basis pairs) equals the standard one (sum_kl G(E_kl) (x) E_kl) and the reshuffle of the HS matrix, is Hermitian for real maps, Choi -> HS inverts HS -> Choi, the column-major form is the re-indexed row-major one (spot-checked against the action), vector <-> matrix round trips, and for the exact CP catalogue sum_i K_i (x) conj K_i is the computational HS matrix. Binding: each emitted case goes through EVERY implementation the library offers for that conversion (three HS->Choi, three Choi->HS, Gate / MProcess methods, both computational orders, process matrix, convert_hs, convert_vec, convert_basis, density-matrix / POVM-matrix variants incl. the sparse ones, variable helpers under both flags) and must equal the one exact answer; exceptions are violations; linearity on dyadic combinations; Kraus conversion on the CP catalogue up to the channel generated; truncate_hs around its thresholds.",
+      "Trusted: QConv definitions and the coordinate scaling; Kraus conversion (non-linear) only on the catalogue.",
+      "TLA+ spec (QConv over Gaussian rationals) model-checked with TLC; replay of TLC-emitted exact representations into every conversion implementation",
+      "DESIGN.md §4 C02")
+
 ALL = ["C%02d" % i for i in range(1, 21)]
 
 def main():
